@@ -378,6 +378,56 @@ func runC16(r *rep.Report, thorough bool) error {
 		if strings.Contains(strings.ToUpper(all), "_SELECT KEY") {
 			r.Fail(rep.Failure{Signature: "c16:select-key-leaks", What: "an internal _SELECT KEY directive reaches the SQL output", Input: in})
 		}
+		// custom queries, end to end: the Go function takes one argument per distinct name, typed
+		// like the struct field it is compared with (the field's type read from go/types directly)
+		var tables []ansql.Table
+		if tout := guard(func() { tables = ansql.SelectTables(a.Ana) }); tout.Class == "ok" {
+			for _, ta := range tables {
+				st, _ := ta.Name.Underlying().(*types.Struct)
+				tf := a.FB.Types[types.TypeString(ta.Name, nil)]
+				if st == nil || tf == nil {
+					continue
+				}
+				fieldTy := map[string]types.Type{}
+				for i := 0; i < st.NumFields(); i++ {
+					fieldTy[st.Field(i).Name()] = st.Field(i).Type()
+				}
+				byName := map[string]ansql.CustomQuery{}
+				for _, q := range ta.CustomQueries {
+					byName[q.GoFunctionName] = q
+				}
+				for _, line := range tf.Doc {
+					const pre = "// gomacro:QUERY "
+					if !strings.HasPrefix(line, pre) {
+						continue
+					}
+					comment := strings.TrimPrefix(line, pre)
+					reply, err := d.Call(map[string]any{"op": "c16.query", "comment": comment})
+					if err != nil {
+						return err
+					}
+					goName, _ := reply["goName"].(string)
+					q, has := byName[goName]
+					minputs, _ := reply["inputs"].([]any)
+					in2 := map[string]any{"case": a.Case.ID, "struct": ta.Name.Obj().Name(), "query": comment, "sources": a.Case.Sources()}
+					r.Case(map[string]any{"case": a.Case.ID, "query": comment}, true)
+					if !has || len(q.Inputs) != len(minputs) {
+						r.Fail(rep.Failure{Signature: "c16:custom-query-arguments", What: "the custom query of the struct is missing from the table, or does not take one argument per distinct name", Input: in2, Expected: reply, Observed: fmt.Sprintf("%+v", q)})
+						continue
+					}
+					for i, mi := range minputs {
+						field, _ := mi.(map[string]any)["field"].(string)
+						want := fieldTy[field]
+						if want == nil {
+							continue
+						}
+						if !types.Identical(q.Inputs[i].Type, want) {
+							r.Fail(rep.Failure{Signature: "c16:custom-query-argument-type", What: fmt.Sprintf("argument %s of %s is typed %s, the struct field %s it is compared with has type %s", q.Inputs[i].VarName, goName, q.Inputs[i].Type, field, want), Input: in2})
+						}
+					}
+				}
+			}
+		}
 		// expected ADD-constraints per table from the walker's own-declaration doc comments
 		var tnames []string
 		for _, s := range a.FB.Source {
